@@ -80,6 +80,10 @@ def gen_session(rng, cmds, tier):
         return gen_retry_session(rng)
     steps = [("pref", "NavMode", rng.choice(["Enhanced", "Simple", "Character"]))]
     if rng.random() < 0.3:
+        steps.append(("pref", "Language", rng.choice(NAV_LANGS)))
+    if rng.random() < 0.4:
+        steps.append(("pref", "NavVerbosity", rng.choice(["Terse", "Medium", "Verbose"])))
+    if rng.random() < 0.3:
         steps.append(("pref", "Overview", rng.choice(["true", "false"])))
     if rng.random() < 0.3:
         steps.append(("pref", "AutoZoomOut", rng.choice(["true", "false"])))
@@ -104,6 +108,26 @@ def gen_session(rng, cmds, tier):
             else:
                 steps.append(("cmd", rng.choices(cmds, weights)[0]))
     return steps
+
+
+NAV_LANGS = ["en", "es", "fi", "id", "sv", "vi", "zh-tw"]
+
+
+def placemarker_sessions(rng, tier):
+    """every language's navigation rules x NavVerbosity x NavMode: mark a node, move away, come back, read and describe the
+    mark, undo (the rule files are per language: a rule that computes the node to go to can differ in one of them only)"""
+    out = []
+    for lang in NAV_LANGS:
+        for verb in ("Terse", "Medium", "Verbose"):
+            modes = ["Enhanced", "Simple", "Character"] if tier != "quick" else [rng.choice(["Enhanced", "Simple", "Character"])]
+            for mode in modes:
+                k = rng.randint(0, 9)
+                steps = [("pref", "Language", lang), ("pref", "NavVerbosity", verb), ("pref", "NavMode", mode),
+                         ("expr", X.math(rng.choice(NAV_EXPRS))), ("cmd", "ZoomIn"), ("cmd", "SetPlacemarker%d" % k), ("cmd", "MoveNext"),
+                         ("cmd", rng.choice(["MoveNext", "ZoomIn", "MoveEnd"])), ("cmd", "MoveTo%d" % k), ("cmd", "MoveLastLocation"),
+                         ("cmd", "Read%d" % k), ("cmd", "Describe%d" % k), ("cmd", "MoveTo%d" % k), ("cmd", "MovePrevious"), ("cmd", "MoveLastLocation")]
+                out.append(steps)
+    return out
 
 
 def run_sessions(scripts):
@@ -214,6 +238,7 @@ def generate(res):
     rng = random.Random(seed * 9176 + 11)
     ns = 80 if tier == "quick" else 300
     scripts = [gen_session(rng, cmds, tier) for _ in range(ns)]
+    scripts += placemarker_sessions(rng, tier)
     plans, out, shape = run_sessions(scripts)
     items, traces = [], []
     for plan, r in zip(plans, out):
